@@ -629,7 +629,7 @@ func (ex *Exec) implements(x IfaceV, it *types.Interface) bool {
 }
 
 func (ex *Exec) indexAddr(fr *Frame, ins *ssa.IndexAddr) Value {
-	idxT := ex.val(fr, ins.Index).(*Term)
+	idxT := bvResize(ex.val(fr, ins.Index).(*Term), 64, isSigned(ins.Index.Type()))
 	switch x := ex.val(fr, ins.X).(type) {
 	case Ptr:
 		if x.c == nil {
@@ -667,18 +667,18 @@ func (ex *Exec) boundedIndex(fr *Frame, idxT *Term, n int, pos token.Pos) int {
 }
 
 func (ex *Exec) index(fr *Frame, ins *ssa.Index) Value {
-	idxT := ex.val(fr, ins.Index).(*Term)
+	idxT := bvResize(ex.val(fr, ins.Index).(*Term), 64, isSigned(ins.Index.Type()))
 	switch x := ex.val(fr, ins.X).(type) {
 	case StructV: // array value
 		if idxT.conc {
-			i := bvResize(idxT, 64, true).sval()
+			i := idxT.sval()
 			if i < 0 || i >= int64(len(x)) {
 				ex.rtPanic(fr, ins.Pos(), "index out of range")
 			}
 			return x[i]
 		}
 		// symbolic index into array of scalars: ite chain
-		idx64 := bvResize(idxT, 64, isSigned(ins.Index.Type()))
+		idx64 := idxT
 		inr := bvUlt(idx64, bvConst(64, uint64(len(x))))
 		if !ex.decide(inr) {
 			ex.rtPanic(fr, ins.Pos(), "index out of range")
